@@ -150,4 +150,19 @@ CHECKS = {
              "shards": {"quick": 8, "thorough": 16}, "timeout": {"quick": 600, "thorough": 7200}},
         ],
     },
+    "C05": {
+        "rule": ("real-time cases run 16 at a time: TCP through Server.handle on a scripted connection, UDP through the real packetConn fed by the harness; matching timeout "
+                 "150-600 ms (thorough: -2 s) incl. sub-second values, start aligned to a generated tenth of the wall-clock second, client silent / trickling one byte every 2-40 ms / "
+                 "flooding, route lists: always-undecided (read and peek matchers), decided-no + undecided, shipped http matcher, matcher error after n bytes, matcher error followed "
+                 "by a match-all route, nested subroute with its own timeout, match-then-slow-handler reading after the deadline. Oracle: one-sided timing (never early: >= timeout - 5 ms "
+                 "measured around the call; not later than timeout + max(1 s, timeout), re-tried 3x in isolation), bytes buffered <= limit + one chunk, no handler/fallback after "
+                 "failed matching, connection closed, late data reaches the matched handler. Non-trivial = sub-second timeout, non-zero phase or non-silent schedule."),
+        "assumptions": ["upper time bounds are judged with slack >= 1 s and only if they reproduce three times in isolation; lower bounds are exact up to 5 ms",
+                        "UDP cases use the virtual connection without the server loop (closing on failure is covered on the TCP path and in C09)"],
+        "min_classes": {"quick": {"C05/udp": 40, "C05/tcp": 80, "C05/schedule/trickle": 40, "C05/routes/subroute": 8, "C05/routes/match-then-slow": 8, "C05/routes/nonterminal-then-never": 8, "C05/routes/subroute-fallthrough-then-slow": 8}},
+        "runs": [
+            {"name": "bounds", "pkg": "./c05", "run": ".", "rapid_checks": {"quick": 6, "thorough": 80},
+             "shards": {"quick": 5, "thorough": 16}, "timeout": {"quick": 600, "thorough": 7200}},
+        ],
+    },
 }
